@@ -192,6 +192,61 @@ def stalled_subscriber_oracle(r: dict) -> list[str]:
     return m
 
 
+def real_cancel_cases(ks: list[int]) -> list[dict]:
+    """harness/real_cancel_case.py, one sub-process per case (a real spawn child): the caller of run() cancelled k loop turns after the task
+    of the run began to set the run up, then close() from another task"""
+    import json
+    import os
+    import subprocess
+    import tempfile
+    from concurrent.futures import ThreadPoolExecutor
+    from pathlib import Path
+
+    def one(k: int) -> dict:
+        tmp = tempfile.mkdtemp(prefix='nlv-rc-')
+        try:
+            out = Path(tmp) / 'out.json'
+            env = dict(os.environ)
+            env['PYTHONPATH'] = f'{common.VERIF}:' + env.get('PYTHONPATH', '')
+            p = subprocess.Popen(['/venv/bin/python', '-m', 'harness.real_cancel_case', json.dumps({'n_yields': k}), str(out)], cwd=tmp, env=env,
+                                 stdout=subprocess.DEVNULL, stderr=subprocess.DEVNULL, start_new_session=True)
+            try:
+                p.wait(timeout=120)
+            except subprocess.TimeoutExpired:
+                pass
+            finally:
+                try:
+                    os.killpg(p.pid, 9)
+                except ProcessLookupError:
+                    pass
+            if out.exists():
+                return json.loads(out.read_text())
+            return {'spec': {'n_yields': k}, 'error': 'the scenario process produced no result'}
+        finally:
+            import shutil
+            shutil.rmtree(tmp, ignore_errors=True)
+    with ThreadPoolExecutor(len(ks)) as ex:
+        return list(ex.map(one, ks))
+
+
+def real_cancel_oracle(r: dict) -> list[str]:
+    who = (f"real child: the task that called run() was cancelled {r['spec']['n_yields']} loop turn(s) after the run's task had begun to set the run up "
+           f"(the child process being spawned), then close() from another task")
+    if 'error' in r:
+        return [f'{who}: scenario failed: {r["error"]}']
+    m = []
+    if r['close'] != 'returned':
+        m.append(f"{who}: close() {r['close']} (state {r['state_after_close']!r})")
+    else:
+        if r['state_after_close'] != 'closed':
+            m.append(f"{who}: after close() the state is {r['state_after_close']!r}")
+        if r.get('children_alive_after_close'):
+            m.append(f"{who}: {r['children_alive_after_close']} child process(es) of the object alive after close() had returned")
+        if r.get('second_close') != 'returned':
+            m.append(f"{who}: a second close() {r.get('second_close')}")
+    return m
+
+
 def run(chk: common.Check) -> None:
     chk.cov.rule = ('serial histories (as C01) with close() issued at every point of every short history and at random points of long ones, from a '
                     'fresh task each time; subscribers attached before and after start; compared with the Lean model on call results, state, '
@@ -254,6 +309,12 @@ def run(chk: common.Check) -> None:
                 m.append(f"close() returned with the state {r['state']} after a plugin's {hook_name} had raised")
         if m:
             oracle_fail.append(({'close_pending_hook_failure': r}, m, None))
+    for r in real_cancel_cases([0, 1, 2, 3, 5] if chk.tier == 'quick' else list(range(0, 12))):
+        chk.cov.case(('real-cancel-during-spawn', r['spec']['n_yields']))
+        chk.cov.count('kinds', 'real-child-caller-of-run-cancelled-during-spawn-then-close')
+        m = real_cancel_oracle(r)
+        if m:
+            oracle_fail.append(({'real_cancel': r}, m, None))
     for n_items in ((3, 1500) if chk.tier == 'quick' else (3, 300, 1500, 5000)):
         for when in ('before-exit', 'after-exit'):
             r = stalled_subscriber_case(n_items, when)
